@@ -699,7 +699,9 @@ func (m *monitor) execute(c *streamCase, rng *rand.Rand) {
 	r := m.r
 	var g gateResult
 	ok, _ := lib.Returns(watchdog, func() { g = runGate(c, rng) })
-	r.Eval(1)
+	if c.Index%25 == 24 {
+		r.Eval(25) // batched: the run's bookkeeping mutex is shared by all workers
+	}
 	if !ok {
 		// all bytes and EOF were available to the decoder: re-run alone with 3x the budget
 		ok2, _ := lib.Returns(3*watchdog, func() { _ = runGate(c, rand.New(rand.NewSource(1))) })
@@ -719,7 +721,7 @@ func (m *monitor) execute(c *streamCase, rng *rand.Rand) {
 		key = append(key, c.Stream...)
 		r.DistinctBytes(key)
 	}
-	if r.WantSample() {
+	if c.Index%16 == 0 && r.WantSample() {
 		end := "need-more"
 		if ref.End == frameref.Reject {
 			end = "reject: " + ref.Reason
@@ -838,7 +840,7 @@ func TestC02(t *testing.T) {
 				for i := 0; i < blockSize && b*blockSize+i < total; i++ {
 					c := makeCase(rng, b, i)
 					r.LogCase(map[string]any{"block": b, "index": i, "gen": c.Gen, "direction": c.Dir, "threshold": c.Threshold,
-						"reader": c.Reader, "stream_hex": hex.EncodeToString(head(c.Stream, 4096)), "stream_len": len(c.Stream)})
+						"reader": c.Reader, "stream_hex_head": hex.EncodeToString(head(c.Stream, 256)), "stream_len": len(c.Stream)})
 					m.execute(c, rng)
 				}
 			}
@@ -884,6 +886,7 @@ func replay(m *monitor, path string) {
 	c := &streamCase{Gen: rp.Witness.Gen, Dir: rp.Witness.Direction, Threshold: rp.Witness.Threshold, Reader: rp.Witness.Reader, Stream: s}
 	before := r.Violations()
 	m.execute(c, rand.New(rand.NewSource(1)))
+	r.Eval(1)
 	r.DistinctBytes([]byte("replay-a"))
 	r.DistinctBytes([]byte("replay-b"))
 	if r.Violations() > before {
